@@ -1,8 +1,111 @@
 import Driver.Codec
+import LopdfModel.Model.Outline
+import LopdfModel.Spec.Outline
 namespace Lopdf.Driver.C17
 open Lopdf Lopdf.Codec
 
-/-- protocol operations of property C17: `none` = not an operation of this property. -/
-def handle (op : String) (args : List String) : Option String := none
+/-- `<parent|-> <page_n> <page_g> <format> <c0> <c1> <c2> <ntitle> <cp>*` -/
+def parseOp (ts : List String) : Option ((Bm × Option Nat) × List String) :=
+  match ts with
+  | par :: pn :: pg :: fmt :: c0 :: c1 :: c2 :: nt :: rest => do
+    let parent ← if par = "-" then some none else par.toNat?.map some
+    let pn ← pn.toNat?
+    let pg ← pg.toNat?
+    let fmt ← fmt.toNat?
+    let nt ← nt.toNat?
+    if rest.length < nt then none else
+    let cps ← (rest.take nt).mapM String.toNat?
+    let col := [c0, c1, c2].map (fun s => s.toUTF8.toList)
+    pure (({ children := [], title := cps, format := fmt, color := col, page := (pn, pg), id := 0 }, parent),
+          rest.drop nt)
+  | _ => none
+
+partial def parseOps : Nat → List String → Option (List (Bm × Option Nat) × List String)
+  | 0, ts => some ([], ts)
+  | k + 1, ts => do
+    let (op, ts1) ← parseOp ts
+    let (ops, ts2) ← parseOps k ts1
+    pure (op :: ops, ts2)
+
+def insertSorted (x : ObjId × Dict) : List (ObjId × Dict) → List (ObjId × Dict)
+  | [] => [x]
+  | y :: ys =>
+    if x.1.1 < y.1.1 ∨ (x.1.1 = y.1.1 ∧ x.1.2 < y.1.2) then x :: y :: ys
+    else if x.1 = y.1 then y :: ys          -- an earlier (= more recent) entry shadows
+    else y :: insertSorted x ys
+
+/-- most recent entry per id, sorted by id (what ends up in the `BTreeMap`) -/
+def canonObjs (p : Proc) : Objects :=
+  (p.foldl (fun acc x => insertSorted x acc) []).map (fun (k, d) => (k, Obj.dict d))
+
+def showPages (s : BmState) : String :=
+  String.join ((List.range s.maxBm).map fun i =>
+    match s.table.get (i + 1) with
+    | some b => " " ++ toString (i + 1) ++ "=" ++ toString b.page.1 ++ "_" ++ toString b.page.2
+    | none => " " ++ toString (i + 1) ++ "=?")
+
+def showCps (cs : List Nat) : String :=
+  toString cs.length ++ String.join (cs.map fun c => " " ++ toString c)
+
+def handle (op : String) (args : List String) : Option String :=
+  match op with
+  | "c17_build" =>
+    some <| match args with
+    | maxid :: adj :: nops :: rest =>
+      match maxid.toNat?, adj.toNat?, nops.toNat? with
+      | some maxid, some adj, some nops =>
+        match parseOps nops rest with
+        | some (ops, []) =>
+          let s0 := addAll BmState.empty ops
+          let fuel := 2 * s0.maxBm + 8
+          let s1 := if adj = 1 then adjustZeroPages fuel s0 else some s0
+          match s1 with
+          | none => "panic"
+          | some s =>
+            -- the abstract forest of the operation sequence represents the table (checked per case)
+            let rep := if repL s0.table s0.roots (forestOfOps ops) then "1" else "0"
+            match buildOutline fuel s maxid with
+            | none => "panic"
+            | some none => "ok none " ++ toString maxid ++ " rep=" ++ rep ++ " bm" ++ showPages s ++ " objs 0"
+            | some (some b) =>
+              "ok R" ++ toString b.root.1 ++ "_" ++ toString b.root.2 ++ " " ++ toString b.maxId ++
+                " rep=" ++ rep ++ " bm" ++ showPages s ++ " objs " ++ showObjects (canonObjs b.objs)
+        | _ => "bad-op"
+      | _, _, _ => "bad-op"
+    | _ => "bad-op"
+  | "c17_toc" =>
+    some <| match parseObj args with
+    | some (.dict tr, rest) =>
+      match rest with
+      | k :: rest' =>
+        match k.toNat?.bind (fun k => parseObjects k rest') with
+        | some (os, []) =>
+          match getToc (4 * os.length + 64) tr os with
+          | .ok toc ne =>
+            "ok " ++ toString toc.length ++ String.join (toc.map fun e =>
+              " | " ++ toString e.level ++ " " ++ toString e.page ++ " " ++ showCps e.title) ++
+              " errs=" ++ toString ne
+          | .err => "err"
+          | .panic => "panic"
+          | .fuel => "fuel"
+          | .unsupported => "unsupported"
+        | _ => "bad-op"
+      | [] => "bad-op"
+    | _ => "bad-op"
+  | "c17_title" =>
+    -- `c17_title <n> <cp>*` -> `ok <hex title bytes> <decoded>`
+    some <| match args with
+    | n :: rest =>
+      match n.toNat?, rest.mapM String.toNat? with
+      | some n, some cps =>
+        if cps.length ≠ n then "bad-op" else
+        let b := titleBytes cps
+        "ok " ++ hexTok b ++ " " ++ (match decodeTitle b with
+          | .ok cs => showCps cs
+          | .badLen => "badlen"
+          | .unsupported => "unsupported")
+      | _, _ => "bad-op"
+    | _ => "bad-op"
+  | _ => none
 
 end Lopdf.Driver.C17
